@@ -38,6 +38,8 @@ import (
 // callee's copy; they are listed with how = "copy" (the table in Props/C04Reent.lean must
 // still name them: a value receiver that becomes a pointer receiver changes the meaning
 // without changing the statement).
+// `codeGlobals`: package-level variables whose type holds, or is keyed by, compiled-code objects
+// (`var depthOf = map[*Loop]int{}` is state of the code just as a field is).
 // `codeTypes`: the compiled-code types, for the record.
 //
 // Props/C04Reent.lean proves by `decide` that `codeWrites` is EXACTLY a committed list in
@@ -371,13 +373,68 @@ func init() {
 		for _, n := range tnames {
 			tq = append(tq, LeanString(n))
 		}
+		// package-level variables that can hold (or be keyed by) compiled-code objects: a side table
+		// `map[*Loop]int` is state of the code just as a field is
+		var mentions func(t types.Type, depth int, seen map[types.Type]bool) bool
+		mentions = func(t types.Type, depth int, seen map[types.Type]bool) bool {
+			if depth > 6 || seen[t] {
+				return false
+			}
+			seen[t] = true
+			switch x := t.(type) {
+			case *types.Named:
+				if x.Obj().Pkg() == w.Zygo.Types && code[x.Obj().Name()] {
+					return true
+				}
+				if x.Obj().Pkg() == w.Zygo.Types && x.Obj().Name() == "Instruction" {
+					return true
+				}
+				return false // other named types: their own fields are not a side table of code
+			case *types.Pointer:
+				return mentions(x.Elem(), depth+1, seen)
+			case *types.Slice:
+				return mentions(x.Elem(), depth+1, seen)
+			case *types.Array:
+				return mentions(x.Elem(), depth+1, seen)
+			case *types.Chan:
+				return mentions(x.Elem(), depth+1, seen)
+			case *types.Map:
+				return mentions(x.Key(), depth+1, seen) || mentions(x.Elem(), depth+1, seen)
+			case *types.Struct:
+				for i := 0; i < x.NumFields(); i++ {
+					if mentions(x.Field(i).Type(), depth+1, seen) {
+						return true
+					}
+				}
+			}
+			return false
+		}
+		var globals []string
+		for _, n := range scope.Names() {
+			v, ok := scope.Lookup(n).(*types.Var)
+			if !ok {
+				continue
+			}
+			if mentions(v.Type(), 0, map[types.Type]bool{}) {
+				globals = append(globals, fmt.Sprintf("(%s, %s)", LeanString(n), LeanString(types.TypeString(v.Type(), func(p *types.Package) string { return "" }))))
+			}
+		}
+		sort.Strings(globals)
 		w.Facts["code_object_writes"] = len(sites)
+		var flat []string
+		for _, k := range sites {
+			flat = append(flat, k.fn+" writes "+k.field+" ("+k.how+")")
+		}
+		w.Facts["code_object_writes_list"] = flat
+		w.Facts["code_object_globals_list"] = globals
 		var b strings.Builder
 		b.WriteString("namespace ZygoVerif.Generated.CodeWrites\n")
 		b.WriteString("/-- types whose values are compiled code, shared by every activation -/\n")
 		b.WriteString(LeanList("codeTypes", "String", tq, 120))
 		b.WriteString("/-- (enclosing function, Type.field, assign|addr|copy): fields of compiled-code objects written\noutside the function that constructs the object. -/\n")
 		b.WriteString(LeanList("codeWrites", "(String × String × String)", elems, 100))
+		b.WriteString("/-- package-level variables whose type holds or is keyed by compiled-code objects (side tables). -/\n")
+		b.WriteString(LeanList("codeGlobals", "(String × String)", globals, 100))
 		b.WriteString("end ZygoVerif.Generated.CodeWrites\n")
 		return b.String(), nil
 	}})
